@@ -61,7 +61,11 @@ def cmd_init(args):
             print(f"{C.CYAN}Upgrading merchant rules to new format...{C.RESET}")
             print(f"  Found: config/merchant_categories.csv (legacy CSV format)")
             print()
-            _migrate_csv_to_rules(old_csv, config_dir, backup=True)
+            if not _migrate_csv_to_rules(old_csv, config_dir, backup=True):
+                # Do not go on to create a starter merchants.rules: it would shadow the
+                # CSV rules that could not be migrated.
+                print(f"  Your rules are still in config/merchant_categories.csv; run 'tally init' again once the problem is fixed.")
+                sys.exit(1)
             print()
 
     created, skipped = init_config(target_dir)
